@@ -20,6 +20,8 @@ def run(repo, rep):
     rep.rule('C02.L2', 'field order, width, big-endian byte order and carried attribute per position', 23)
     rep.rule('C02.L3', 'each length field equals the number of bytes the standard says it governs; fixed lengths; '
              'total_length() = bytes emitted', 23)
+    rep.rule('C02.L5', 'converse direction (values): text fields (fixed-width NUL-padded or length-delimited) decode to the value a '
+             'conformant encoder wrote, including at the full field width', 23)
     rep.rule('C02.L4', 'converse direction (structure): sub-items in any order with generic fallback and delimited by the '
              'item length; variable items by type; several transfer syntaxes; several PDVs up to the PDU length', 5)
     check_wire(lx, rep, 'C02')
